@@ -127,12 +127,15 @@ def c02(m, run):
                 for span in range(p, n):
                     dd = datadict(1, (p,), (n,), 2, rat)
 
-                    def post(sk, out, order=order, rat=rat):
+                    def post(sk, out, order=order, rat=rat, p=p):
                         if len(out) != order + 1:
                             raise Violation('SK3', 'derivative table has %d rows for order %d' % (len(out), order))
                         for row in out:
                             if not (isinstance(row, list) and len(row) == 2 and all(isinstance(c, Tok) and c.kind in ('DEF', 'PH0') for c in row)):
                                 raise Violation('SK3', 'derivative row is not a 2-D vector: %r' % (row,))
+                        for k_ in range(order + 1):
+                            if (rat or k_ <= p) and (any(c.kind != 'DEF' for c in out[k_]) or not footprint(out[k_])):
+                                raise Violation('SK3', 'derivative C^(%d) (degree %d, order %d) is left at its initial fill: it is never computed from the control points' % (k_, p, order))
                     t.add((p, order, span), run1(m, 'evaluators.%s.derivatives' % cls, [evaluator(cls, [span]), dd, DEF()], {'deriv_order': order}, post))
         finish(t, 'geomdl/evaluators.py')
     for cls, rat in (('SurfaceEvaluator', False), ('SurfaceEvaluator2', False), ('SurfaceEvaluatorRational', True)):
@@ -144,13 +147,22 @@ def c02(m, run):
                 for su, sv in ((p, q), (n - 1, k - 1)):
                     dd = datadict(2, (p, q), (n, k), 3, rat)
 
-                    def post(sk, out, order=order):
+                    def post(sk, out, order=order, p=p, q=q, rat=rat):
                         if len(out) != order + 1 or any(len(r) != order + 1 for r in out):
                             raise Violation('SK3', 'derivative table is not (order+1) x (order+1)')
                         for r in out:
                             for cell in r:
                                 if not (isinstance(cell, list) and len(cell) == 3 and all(isinstance(c, Tok) and c.kind in ('DEF', 'PH0') for c in cell)):
                                     raise Violation('SK3', 'derivative cell is not a 3-D vector: %r' % (cell,))
+                        # every derivative S^(k,l) with k + l <= order that does not vanish identically (k <= p, l <= q for a polynomial
+                        # surface; all of them for a rational one) is computed from the control points, not left at its initial fill
+                        for k_ in range(order + 1):
+                            for l_ in range(order + 1 - k_):
+                                if rat or (k_ <= p and l_ <= q):
+                                    cell = out[k_][l_]
+                                    if any(c.kind != 'DEF' for c in cell) or not footprint(cell):
+                                        raise Violation('SK3', 'derivative S^(%d,%d) (degrees %d, %d, order %d) is left at its initial fill: it is never computed from the control points'
+                                                        % (k_, l_, p, q, order))
                     t.add((p, q, order, su, sv), run1(m, 'evaluators.%s.derivatives' % cls, [evaluator(cls, [su, sv]), dd, (DEF(), DEF())], {'deriv_order': order}, post))
         finish(t, 'geomdl/evaluators.py')
 
@@ -1353,6 +1365,7 @@ def rt3(m, run):
         b._a['evaluate_single'] = Py(lambda sk, node, prm: [Sym('o%d' % c) for c in range(3)], 'evaluate_single')
         b._a['__iter__'] = [b]
         sk = SK(m, dict(STD_ABSTRACTED))
+        sk.exact = True
         key = 'operations.rotate :: axis=%d' % axis
         why = None
         mtxt = ''
@@ -1434,6 +1447,7 @@ def tr3(m, run):
         cont = Bag('rec:container', dimension=3, pdimension=1)
         cont._a['__iter__'] = elems
         sk = SK(m, dict(STD_ABSTRACTED))
+        sk.exact = True
         key = 'operations.%s :: container of two shapes' % name
         why = None
         try:
@@ -1629,6 +1643,7 @@ def la3(m, run):
 
     def attempt(key, rule, fi, fn, okmsg):
         sk = SK(m, dict(STD_ABSTRACTED))
+        sk.exact = True
         try:
             why = fn(sk)
         except Violation as v:
@@ -1661,6 +1676,7 @@ def la3(m, run):
                         return 'U[%d][%d] is not zero: U is upper triangular' % (i, j)
             return _mat_eq(sk, _matmul(sk, L, U), A, 'L U')
         sk = SK(m, dict(STD_ABSTRACTED))
+        sk.exact = True
         try:
             why = fn(sk)
         except Violation as v:
@@ -1707,6 +1723,7 @@ def la3(m, run):
         ab = dict(STD_ABSTRACTED)
         ab[('linalg', 'matrix_pivot')] = Py(lambda sk, node, *a, _P=P, _PA=PA, **k: ([list(r) for r in _PA], [list(r) for r in _P]), 'matrix_pivot')
         sk = SK(m, ab)
+        sk.exact = True
         try:
             x = sk.call(ff, [[list(r) for r in A], [list(r) for r in B]], {})
             why = _mat_eq(sk, _matmul(sk, A, x), B, 'A x')
@@ -1745,6 +1762,7 @@ def la3(m, run):
             if kind == 'inv' and perm not in inv_perms:
                 continue
             sk = SK(m, ab)
+            sk.exact = True
             try:
                 out = sk.call(fi_, [[list(r) for r in A]], {})
                 if kind == 'inv':
@@ -1874,3 +1892,431 @@ def vx3(m, run, rule='VX3.voxelize-per-element'):
             raise AnalysisError('%s: interpreter met an unsupported construct: %s' % (key, ex))
         run.ob(rule, key, why is None, 'each element: own bounding box, own points, same options, results concatenated' if why is None else why,
                'geomdl/voxelize.py:%d in voxelize.voxelize' % fi.node.lineno)
+
+
+# ====================================================================================== C17: the two evaluator families cell by cell
+def ev3(m, run):
+    """EV3: the default and the alternative non-rational evaluators interpreted on the same abstract shape (labelled control points): for
+    every degree, derivative order and span the two derivative tables have the same shape and every cell is computed from the same set
+    of control points (or is the untouched zero fill in both)"""
+    dmax = 3
+
+    def table(cls, dd, prm, spans, order):
+        sk = SK(m, dict(STD_ABSTRACTED))
+        return sk.call(m.func('evaluators.%s.derivatives' % cls), [evaluator(cls, spans), dd, prm], {'deriv_order': order})
+
+    def sig(cell):
+        if isinstance(cell, list) and all(isinstance(c, Tok) for c in cell):
+            return ('zero',) if all(c.kind == 'PH0' for c in cell) else ('pts', footprint(cell))
+        return ('?', repr(cell)[:40])
+    for a, b, pdim in (('CurveEvaluator', 'CurveEvaluator2', 1), ('SurfaceEvaluator', 'SurfaceEvaluator2', 2)):
+        bad = []
+        n = 0
+        degs = [(p,) for p in range(1, dmax + 1)] if pdim == 1 else list(itertools.product(range(1, dmax + 1), repeat=2))
+        for dg in degs:
+            sizes = tuple(d + 2 + i for i, d in enumerate(dg))
+            for order in range(0, max(dg) + 2):
+                for spans in (list(dg), [s - 1 for s in sizes]):
+                    n += 1
+                    try:
+                        outs = []
+                        for cls in (a, b):
+                            dd = datadict(pdim, dg, sizes, 3, False)
+                            outs.append(table(cls, dd, DEF() if pdim == 1 else (DEF(), DEF()), spans, order))
+                        ta, tb = outs
+                        why = None
+                        if pdim == 1:
+                            sa_, sb_ = [sig(c) for c in ta], [sig(c) for c in tb]
+                        else:
+                            sa_, sb_ = [[sig(c) for c in r] for r in ta], [[sig(c) for c in r] for r in tb]
+                            # only the cells k + l <= order are part of the result
+                            sa_ = [[c if k + l <= order else None for l, c in enumerate(r)] for k, r in enumerate(sa_)]
+                            sb_ = [[c if k + l <= order else None for l, c in enumerate(r)] for k, r in enumerate(sb_)]
+                        if sa_ != sb_:
+                            if pdim == 1:
+                                k_ = next(i for i, (x, y) in enumerate(zip(sa_, sb_)) if x != y) if len(sa_) == len(sb_) else None
+                                why = 'derivative %s differs' % k_ if k_ is not None else 'tables of %d and %d rows' % (len(sa_), len(sb_))
+                            else:
+                                cell = next(((k, l) for k, (r1, r2) in enumerate(zip(sa_, sb_)) for l, (x, y) in enumerate(zip(r1, r2)) if x != y), None)
+                                if cell is None:
+                                    why = 'tables of different shapes'
+                                else:
+                                    x, y = sa_[cell[0]][cell[1]], sb_[cell[0]][cell[1]]
+                                    d = lambda s_: 'left at its zero fill' if s_ and s_[0] == 'zero' else ('computed from control points %s' % sorted(s_[1]) if s_ and s_[0] == 'pts' and s_[1] is not None else str(s_))
+                                    why = 'S^(%d,%d) is %s by %s and %s by %s' % (cell[0], cell[1], d(x), a, d(y), b)
+                    except Violation as v:
+                        why = '%s %s' % (v.msg, v.where())
+                    except Unsupported as ex:
+                        raise AnalysisError('evaluators.%s / %s: interpreter met an unsupported construct: %s' % (a, b, ex))
+                    if why:
+                        bad.append((dg, order, spans, why))
+        run.ob('EV3.evaluator-families-agree-cell-by-cell', 'evaluators.%s / %s :: %d (degree, order, span) cases' % (a, b, n), not bad,
+               'same table shape, every derivative computed from the same control points' if not bad else
+               'degree %s, order %d, span %s: %s   [%d of %d cases]' % (list(bad[0][0]), bad[0][1], bad[0][2], bad[0][3], len(bad), n), 'geomdl/evaluators.py')
+
+
+# ====================================================================================== C02: alternative evaluators as exact polynomials
+def a34s(m, run):
+    """A34S: CurveEvaluator2 / SurfaceEvaluator2 .derivatives (A3.4 / A3.8) interpreted with the basis-function table and the derivative
+    control points replaced by symbolic atoms: every derivative is exactly  sum_j N[j][p-k] PK[k][j]  (curve) or
+    sum_i sum_j Nu[j][p-k] Nv[i][q-l] PKL[k][l][j][i]  (surface) for k <= min(order, p), l <= min(order - k, q), zero above the degrees,
+    and the helpers are asked for the window (span - degree, span) of every direction"""
+    from .skel import Sym
+    from .poly import Poly
+    bad_c, bad_s = [], []
+    nc = ns = 0
+
+    def ntable(tag, deg):
+        return [[Sym('%s_%d_%d' % (tag, j, d)) if j <= d else None for d in range(deg + 1)] for j in range(deg + 1)]
+
+    def zero(v):
+        s = _as_sym(v)
+        return s is not None and s.is_zero()
+    # ---- curve
+    fc = m.func('evaluators.CurveEvaluator2.derivatives')
+    for p in (1, 2, 3):
+        n = p + 3
+        for order in range(0, p + 3):
+            for span in (p, n - 1):
+                nc += 1
+                dd = datadict(1, (p,), (n,), 3, False)
+                asked = {}
+
+                def bfa(sk, node, degree, kv, sp, knot, _p=p, _dd=dd, _a=asked, _span=span):
+                    if degree != _p or kv is not _dd['knotvector'][0] or sp != _span:
+                        raise Violation('A34S', 'basis_function_all is asked for degree %r / span %r, the curve has degree %d and the span is %d' % (degree, sp, _p, _span), node)
+                    return ntable('N', _p)
+
+                def cdc(sk, node, dim, degree, kv, cp, *a, _p=p, _span=span, _a=asked, **k):
+                    rs = k.get('rs', a[0] if a else None)
+                    do = k.get('deriv_order', a[1] if len(a) > 1 else None)
+                    _a['rs'], _a['do'] = tuple(rs), do
+                    return [[[Sym('PK_%d_%d_%d' % (kk, j, c)) for c in range(dim)] if j <= _p - kk else None for j in range(_p + 1)] for kk in range(do + 1)]
+                ab = dict(STD_ABSTRACTED)
+                ab[('helpers', 'basis_function_all')] = Py(bfa, 'basis_function_all')
+                ab[('helpers', 'curve_deriv_cpts')] = Py(cdc, 'curve_deriv_cpts')
+                sk = SK(m, ab)
+                sk.exact = True
+                try:
+                    out = sk.call(fc, [evaluator('CurveEvaluator2', [span]), dd, DEF()], {'deriv_order': order})
+                    why = None
+                    if asked.get('rs') != (span - p, span):
+                        why = 'curve_deriv_cpts is asked for the window %r, the active control points are %r' % (asked.get('rs'), (span - p, span))
+                    elif len(out) != order + 1:
+                        why = 'table of %d rows for order %d' % (len(out), order)
+                    for k in range(order + 1):
+                        if why:
+                            break
+                        for c in range(3):
+                            v = out[k][c]
+                            if k <= min(order, p):
+                                want = Poly()
+                                for j in range(p - k + 1):
+                                    want = want + Poly.atom('N_%d_%d' % (j, p - k)) * Poly.atom('PK_%d_%d_%d' % (k, j, c))
+                                s = _as_sym(v)
+                                if s is None or not s.same(Sym(want)):
+                                    why = 'C^(%d)[%d] is %s, A3.4 gives %r' % (k, c, repr(v)[:120], want)
+                                    break
+                            elif not zero(v):
+                                why = 'C^(%d) is not zero although %d exceeds the degree %d' % (k, k, p)
+                                break
+                except Violation as v:
+                    why = '%s %s' % (v.msg, v.where())
+                except Unsupported as ex:
+                    raise AnalysisError('%s: interpreter met an unsupported construct: %s' % (fc.key, ex))
+                if why:
+                    bad_c.append(((p, order, span), why))
+    run.ob('A34S.alternative-evaluator-exact', '%s :: %d (degree, order, span) cases' % (fc.key, nc), not bad_c,
+           'every derivative is sum_j N[j][p-k] PK[k][j] as a polynomial identity' if not bad_c else
+           '(degree, order, span) = %s: %s   [%d of %d cases]' % (bad_c[0][0], bad_c[0][1], len(bad_c), nc), 'geomdl/evaluators.py:%d in %s' % (fc.node.lineno, fc.key))
+    # ---- surface
+    fs = m.func('evaluators.SurfaceEvaluator2.derivatives')
+    for p, q in itertools.product((1, 2, 3), repeat=2):
+        nu, nv = p + 2, q + 3
+        for order in range(0, max(p, q) + 2):
+            for su, sv in ((p, q), (nu - 1, nv - 1)):
+                ns += 1
+                dd = datadict(2, (p, q), (nu, nv), 3, False)
+                asked = {}
+
+                def bfa(sk, node, degree, kv, sp, knot, _dd=dd, _pq=(p, q), _sp=(su, sv)):
+                    d = 0 if kv is _dd['knotvector'][0] else (1 if kv is _dd['knotvector'][1] else None)
+                    if d is None or degree != _pq[d] or sp != _sp[d]:
+                        raise Violation('A34S', 'basis_function_all is asked for degree %r, span %r with the knot vector of direction %r: degree, knot vector and span of one direction go together'
+                                        % (degree, sp, d), node)
+                    return ntable('NU' if d == 0 else 'NV', _pq[d])
+
+                def sdc(sk, node, dim, degree, kv, cp, size, *a, _pq=(p, q), _a=asked, **k):
+                    _a['rs'], _a['ss'], do = tuple(k.get('rs', a[0] if a else ())), tuple(k.get('ss', a[1] if len(a) > 1 else ())), k.get('deriv_order', a[2] if len(a) > 2 else None)
+                    _a['do'] = do
+                    du_, dv_ = min(_pq[0], do), min(_pq[1], do)
+                    return [[[[[Sym('PKL_%d_%d_%d_%d_%d' % (kk, ll, i, j, c)) for c in range(dim)] if i <= _pq[0] - kk and j <= _pq[1] - ll else None
+                               for j in range(_pq[1] + 1)] for i in range(_pq[0] + 1)] if kk + ll <= do else None for ll in range(dv_ + 1)] for kk in range(du_ + 1)]
+                ab = dict(STD_ABSTRACTED)
+                ab[('helpers', 'basis_function_all')] = Py(bfa, 'basis_function_all')
+                ab[('helpers', 'surface_deriv_cpts')] = Py(sdc, 'surface_deriv_cpts')
+                sk = SK(m, ab)
+                sk.exact = True
+                try:
+                    out = sk.call(fs, [evaluator('SurfaceEvaluator2', [su, sv]), dd, (DEF(), DEF())], {'deriv_order': order})
+                    why = None
+                    if asked.get('rs') != (su - p, su) or asked.get('ss') != (sv - q, sv):
+                        why = 'surface_deriv_cpts is asked for the windows %r / %r, the active control points are %r / %r' % (asked.get('rs'), asked.get('ss'), (su - p, su), (sv - q, sv))
+                    elif asked.get('do') is None or asked['do'] < order:
+                        why = 'surface_deriv_cpts is asked for derivative control points up to order %r, order %d is evaluated' % (asked.get('do'), order)
+                    elif len(out) != order + 1 or any(len(r) != order + 1 for r in out):
+                        why = 'table is not (order+1) x (order+1)'
+                    for k in range(order + 1):
+                        for l in range(order + 1 - k):
+                            if why:
+                                break
+                            for c in range(3):
+                                v = out[k][l][c]
+                                if k <= p and l <= q:
+                                    want = Poly()
+                                    for i in range(q - l + 1):
+                                        for j in range(p - k + 1):
+                                            want = want + Poly.atom('NU_%d_%d' % (j, p - k)) * Poly.atom('NV_%d_%d' % (i, q - l)) * Poly.atom('PKL_%d_%d_%d_%d_%d' % (k, l, j, i, c))
+                                    s = _as_sym(v)
+                                    if s is None or not s.same(Sym(want)):
+                                        why = 'S^(%d,%d)[%d] is %s, A3.8 gives the double sum over Nu[j][%d] Nv[i][%d] PKL[%d][%d][j][i]' % (k, l, c, repr(v)[:140], p - k, q - l, k, l)
+                                        break
+                                elif not zero(v):
+                                    why = 'S^(%d,%d) is not zero although an order exceeds the degrees (%d, %d)' % (k, l, p, q)
+                                    break
+                except Violation as v:
+                    why = '%s %s' % (v.msg, v.where())
+                except Unsupported as ex:
+                    raise AnalysisError('%s: interpreter met an unsupported construct: %s' % (fs.key, ex))
+                if why:
+                    bad_s.append(((p, q, order, su, sv), why))
+    run.ob('A34S.alternative-evaluator-exact', '%s :: %d (degrees, order, spans) cases' % (fs.key, ns), not bad_s,
+           'every derivative is the double sum of A3.8 as a polynomial identity' if not bad_s else
+           '(p, q, order, span_u, span_v) = %s: %s   [%d of %d cases]' % (bad_s[0][0], bad_s[0][1], len(bad_s), ns), 'geomdl/evaluators.py:%d in %s' % (fs.node.lineno, fs.key))
+
+
+# ====================================================================================== C02: quotient rules as exact rational functions
+def rq2(m, run):
+    """RQ2: the rational derivative evaluators (A4.2 / A4.4) interpreted with the weighted derivatives A^(k), w^(k) handed up by the
+    polynomial evaluator replaced by symbolic atoms and exact binomial coefficients: every returned derivative equals the quotient rule
+    recursion as an identity of rational functions"""
+    import math
+    import operator as o
+    from .skel import Sym
+    from .poly import Poly
+    binom = Py(lambda sk, node, k, i: float(math.comb(int(k), int(i))) if 0 <= i <= k else 0.0, 'binomial_coefficient')
+    one = Sym(Poly.const(1))
+    # ---- curve
+    fc = m.func('evaluators.CurveEvaluatorRational.derivatives')
+    bad = []
+    import itertools as it
+    orders = range(0, 4)
+    cases = [(order, ()) for order in orders] + [(3, z) for r in (1, 2, 3) for z in it.combinations((1, 2, 3), r)]
+    for order, wz in cases:
+        CKw = [[Sym('A_%d_%d' % (k, c)) for c in range(3)] + [0.0 if k in wz else Sym('w_%d' % k)] for k in range(order + 1)]
+        ab = dict(STD_ABSTRACTED)
+        ab[('linalg', 'binomial_coefficient')] = binom
+        ab[('method', 'evaluators.CurveEvaluator.derivatives')] = Py(lambda sk, node, *a, _t=CKw, **k: [list(r) for r in _t], 'CurveEvaluator.derivatives')
+        sk = SK(m, ab)
+        sk.exact = True
+        dd = datadict(1, (2,), (5,), 3, True)
+        try:
+            out = sk.call(fc, [evaluator('CurveEvaluatorRational', [2]), dd, DEF()], {'deriv_order': order})
+            why = None
+            want = []
+            for k in range(order + 1):
+                row = []
+                for c in range(3):
+                    v = CKw[k][c]
+                    for i in range(1, k + 1):
+                        v = sk.arith(o.sub, v, sk.arith(o.mul, sk.arith(o.mul, float(math.comb(k, i)), CKw[i][3], None), want[k - i][c], None), None)
+                    row.append(sk.arith(o.truediv, v, CKw[0][3], None))
+                want.append(row)
+            if len(out) != order + 1:
+                why = 'table of %d rows for order %d' % (len(out), order)
+            for k in range(order + 1):
+                if why:
+                    break
+                if len(out[k]) < 3:
+                    why = 'C^(%d) has %d coordinates' % (k, len(out[k]))
+                for c in range(3):
+                    s = _as_sym(out[k][c])
+                    if s is None or not s.same(want[k][c]):
+                        why = 'C^(%d)[%d] is %s; the quotient rule gives (A^(%d) - sum_i binom(%d, i) w^(i) C^(%d-i)) / w' % (k, c, repr(out[k][c])[:160], k, k, k)
+                        break
+        except Violation as v:
+            why = '%s %s' % (v.msg, v.where())
+        except Unsupported as ex:
+            raise AnalysisError('%s: interpreter met an unsupported construct: %s' % (fc.key, ex))
+        if why:
+            bad.append((order, wz, why))
+    run.ob('RQ2.quotient-rule-exact', '%s :: orders 0..%d, every pattern of vanishing weight derivatives at order 3' % (fc.key, max(orders)), not bad, 'A4.2 as an identity of rational functions' if not bad else
+           'order %d%s: %s   [%d of %d cases]' % (bad[0][0], ' with w^(%s) = 0' % ','.join(map(str, bad[0][1])) if bad[0][1] else '', bad[0][2], len(bad), len(cases)), 'geomdl/evaluators.py:%d in %s' % (fc.node.lineno, fc.key))
+    # ---- surface
+    fs = m.func('evaluators.SurfaceEvaluatorRational.derivatives')
+    bad = []
+    orders = range(0, 3 if run.tier != 'thorough' else 4)
+    wpos = [(k, l) for k in range(3) for l in range(3 - k) if (k, l) != (0, 0)]
+    cases = [(order, ()) for order in orders] + [(2, z) for r in ((1, 2) if run.tier != 'thorough' else (1, 2, 3, 4, 5)) for z in it.combinations(wpos, r)]
+    for order, wz in cases:
+        T = [[[Sym('A_%d_%d_%d' % (k, l, c)) for c in range(3)] + [0.0 if (k, l) in wz else Sym('w_%d_%d' % (k, l))] if k + l <= order else [0.0, 0.0, 0.0, 0.0] for l in range(order + 1)] for k in range(order + 1)]
+        ab = dict(STD_ABSTRACTED)
+        ab[('linalg', 'binomial_coefficient')] = binom
+        ab[('method', 'evaluators.SurfaceEvaluator.derivatives')] = Py(lambda sk, node, *a, _t=T, **k: [[list(c) for c in r] for r in _t], 'SurfaceEvaluator.derivatives')
+        sk = SK(m, ab)
+        sk.exact = True
+        dd = datadict(2, (2, 2), (4, 5), 3, True)
+        try:
+            out = sk.call(fs, [evaluator('SurfaceEvaluatorRational', [2, 2]), dd, (DEF(), DEF())], {'deriv_order': order})
+            why = None
+            W = lambda k, l: T[k][l][3]
+            mul = lambda *xs: __import__('functools').reduce(lambda a, b: sk.arith(o.mul, a, b, None), xs)
+            sub = lambda a, b: sk.arith(o.sub, a, b, None)
+            add = lambda a, b: sk.arith(o.add, a, b, None)
+            want = {}
+            for k in range(order + 1):
+                for l in range(order + 1 - k):
+                    for c in range(3):
+                        v = T[k][l][c]
+                        for j in range(1, l + 1):
+                            v = sub(v, mul(float(math.comb(l, j)), W(0, j), want[(k, l - j, c)]))
+                        for i in range(1, k + 1):
+                            v = sub(v, mul(float(math.comb(k, i)), W(i, 0), want[(k - i, l, c)]))
+                            v2 = Sym(Poly())
+                            for j in range(1, l + 1):
+                                v2 = add(v2, mul(float(math.comb(l, j)), W(i, j), want[(k - i, l - j, c)]))
+                            v = sub(v, mul(float(math.comb(k, i)), v2))
+                        want[(k, l, c)] = sk.arith(o.truediv, v, W(0, 0), None)
+            if len(out) != order + 1 or any(len(r) != order + 1 for r in out):
+                why = 'table is not (order+1) x (order+1)'
+            for (k, l, c), w in sorted(want.items()):
+                if why:
+                    break
+                s = _as_sym(out[k][l][c]) if len(out[k][l]) > c else None
+                if s is None or not s.same(w):
+                    why = 'S^(%d,%d)[%d] is %s; A4.4 gives (A^(k,l) - sum_j C(l,j) w^(0,j) S^(k,l-j) - sum_i C(k,i) (w^(i,0) S^(k-i,l) + sum_j C(l,j) w^(i,j) S^(k-i,l-j))) / w' % (
+                        k, l, c, repr(out[k][l][c])[:120] if len(out[k][l]) > c else 'missing')
+        except Violation as v:
+            why = '%s %s' % (v.msg, v.where())
+        except Unsupported as ex:
+            raise AnalysisError('%s: interpreter met an unsupported construct: %s' % (fs.key, ex))
+        if why:
+            bad.append((order, wz, why))
+    run.ob('RQ2.quotient-rule-exact', '%s :: orders 0..%d, %d patterns of vanishing weight derivatives at order 2' % (fs.key, max(orders), len(cases) - len(orders)), not bad,
+           'A4.4 as an identity of rational functions for every S^(k,l), k + l <= order' if not bad else
+           'order %d%s: %s   [%d of %d cases]' % (bad[0][0], ' with w^%s = 0' % (list(bad[0][1]),) if bad[0][1] else '', bad[0][2], len(bad), len(cases)), 'geomdl/evaluators.py:%d in %s' % (fs.node.lineno, fs.key))
+
+
+def a36s(m, run):
+    """A36S: CurveEvaluator / SurfaceEvaluator .derivatives (A3.2 / A3.6) interpreted with the basis-function derivative table and the
+    control points replaced by symbolic atoms: C^(k) = sum_j ders[k][j] P[span-p+j];  S^(k,l) = sum_s dersV[l][s] sum_r dersU[k][r]
+    P[span_u-p+r][span_v-q+s] exactly, for k <= min(order, p), l <= min(order-k, q); zero above the degrees"""
+    from .skel import Sym
+    from .poly import Poly
+
+    def zero(v):
+        s = _as_sym(v)
+        return s is not None and s.is_zero()
+
+    def dtable(tag, deg, n):
+        return [[Sym('%s_%d_%d' % (tag, k, j)) for j in range(deg + 1)] for k in range(n + 1)]
+    # ---- curve
+    fc = m.func('evaluators.CurveEvaluator.derivatives')
+    bad, nc = [], 0
+    for p in (1, 2, 3):
+        n = p + 3
+        for order in range(0, p + 3):
+            for span in (p, n - 1):
+                nc += 1
+                dd = datadict(1, (p,), (n,), 3, False)
+                dd['control_points'] = tuple([Sym('P_%d_%d' % (i, c)) for c in range(3)] for i in range(n))
+
+                def bfd(sk, node, degree, kv, sp, knot, order_, _p=p, _dd=dd, _span=span):
+                    if degree != _p or kv is not _dd['knotvector'][0] or sp != _span:
+                        raise Violation('A36S', 'basis_function_ders is asked for degree %r / span %r; the curve has degree %d and the span is %d' % (degree, sp, _p, _span), node)
+                    return dtable('D', _p, order_)
+                ab = dict(STD_ABSTRACTED)
+                ab[('helpers', 'basis_function_ders')] = Py(bfd, 'basis_function_ders')
+                sk = SK(m, ab)
+                sk.exact = True
+                try:
+                    out = sk.call(fc, [evaluator('CurveEvaluator', [span]), dd, DEF()], {'deriv_order': order})
+                    why = None if len(out) == order + 1 else 'table of %d rows for order %d' % (len(out), order)
+                    for k in range(order + 1):
+                        if why:
+                            break
+                        for c in range(3):
+                            v = out[k][c]
+                            if k <= p:
+                                want = Poly()
+                                for j in range(p + 1):
+                                    want = want + Poly.atom('D_%d_%d' % (k, j)) * Poly.atom('P_%d_%d' % (span - p + j, c))
+                                s = _as_sym(v)
+                                if s is None or not s.same(Sym(want)):
+                                    why = 'C^(%d)[%d] is %s, A3.2 gives sum_j ders[%d][j] P[span-p+j]' % (k, c, repr(v)[:140], k)
+                                    break
+                            elif not zero(v):
+                                why = 'C^(%d) is not zero although %d exceeds the degree %d' % (k, k, p)
+                                break
+                except Violation as v:
+                    why = '%s %s' % (v.msg, v.where())
+                except Unsupported as ex:
+                    raise AnalysisError('%s: interpreter met an unsupported construct: %s' % (fc.key, ex))
+                if why:
+                    bad.append(((p, order, span), why))
+    run.ob('A36S.default-evaluator-exact', '%s :: %d (degree, order, span) cases' % (fc.key, nc), not bad, 'every derivative is sum_j ders[k][j] P[span-p+j] as a polynomial identity' if not bad else
+           '(degree, order, span) = %s: %s   [%d of %d cases]' % (bad[0][0], bad[0][1], len(bad), nc), 'geomdl/evaluators.py:%d in %s' % (fc.node.lineno, fc.key))
+    # ---- surface
+    fs = m.func('evaluators.SurfaceEvaluator.derivatives')
+    bad, ns = [], 0
+    for p, q in itertools.product((1, 2, 3), repeat=2):
+        nu, nv = p + 2, q + 3
+        for order in range(0, max(p, q) + 2):
+            for su, sv in ((p, q), (nu - 1, nv - 1)):
+                ns += 1
+                dd = datadict(2, (p, q), (nu, nv), 3, False)
+                dd['control_points'] = tuple([Sym('P_%d_%d_%d' % (i // nv, i % nv, c)) for c in range(3)] for i in range(nu * nv))
+
+                def bfd(sk, node, degree, kv, sp, knot, order_, _dd=dd, _pq=(p, q), _sp=(su, sv)):
+                    d = 0 if kv is _dd['knotvector'][0] else (1 if kv is _dd['knotvector'][1] else None)
+                    if d is None or degree != _pq[d] or sp != _sp[d]:
+                        raise Violation('A36S', 'basis_function_ders is asked for degree %r, span %r with the knot vector of direction %r: degree, knot vector and span of one direction go together'
+                                        % (degree, sp, d), node)
+                    if order_ < min(_pq[d], 0):
+                        raise Violation('A36S', 'negative derivative order', node)
+                    return dtable('DU' if d == 0 else 'DV', _pq[d], order_)
+                ab = dict(STD_ABSTRACTED)
+                ab[('helpers', 'basis_function_ders')] = Py(bfd, 'basis_function_ders')
+                sk = SK(m, ab)
+                sk.exact = True
+                try:
+                    out = sk.call(fs, [evaluator('SurfaceEvaluator', [su, sv]), dd, (DEF(), DEF())], {'deriv_order': order})
+                    why = None
+                    if len(out) != order + 1 or any(len(r) != order + 1 for r in out):
+                        why = 'table is not (order+1) x (order+1)'
+                    for k in range(order + 1):
+                        for l in range(order + 1 - k):
+                            if why:
+                                break
+                            for c in range(3):
+                                v = out[k][l][c]
+                                if k <= p and l <= q:
+                                    want = Poly()
+                                    for s_ in range(q + 1):
+                                        for r in range(p + 1):
+                                            want = want + Poly.atom('DU_%d_%d' % (k, r)) * Poly.atom('DV_%d_%d' % (l, s_)) * Poly.atom('P_%d_%d_%d' % (su - p + r, sv - q + s_, c))
+                                    s = _as_sym(v)
+                                    if s is None or not s.same(Sym(want)):
+                                        why = 'S^(%d,%d)[%d] is %s, A3.6 gives sum_s dersV[%d][s] sum_r dersU[%d][r] P[span_u-p+r][span_v-q+s]' % (k, l, c, repr(v)[:140], l, k)
+                                        break
+                                elif not zero(v):
+                                    why = 'S^(%d,%d) is not zero although an order exceeds the degrees (%d, %d)' % (k, l, p, q)
+                                    break
+                except Violation as v:
+                    why = '%s %s' % (v.msg, v.where())
+                except Unsupported as ex:
+                    raise AnalysisError('%s: interpreter met an unsupported construct: %s' % (fs.key, ex))
+                if why:
+                    bad.append(((p, q, order, su, sv), why))
+    run.ob('A36S.default-evaluator-exact', '%s :: %d (degrees, order, spans) cases' % (fs.key, ns), not bad, 'every derivative is the double sum of A3.6 as a polynomial identity' if not bad else
+           '(p, q, order, span_u, span_v) = %s: %s   [%d of %d cases]' % (bad[0][0], bad[0][1], len(bad), ns), 'geomdl/evaluators.py:%d in %s' % (fs.node.lineno, fs.key))
